@@ -8,6 +8,7 @@ import (
 	"time"
 
 	kruiseappsv1alpha1 "github.com/openkruise/kruise-api/apps/v1alpha1"
+	kruiseappsv1beta1 "github.com/openkruise/kruise-api/apps/v1beta1"
 	"github.com/openkruise/rollouts/api/v1beta1"
 	"github.com/openkruise/rollouts/pkg/verifrt"
 	"github.com/openkruise/rollouts/pkg/verifrt/symclient"
@@ -39,17 +40,18 @@ func (q *vEvQueue) NumRequeues(item interface{}) int           { return 0 }
 
 type vEvRef struct {
 	ns, name string
-	kind     int // 0 Deployment, 1 CloneSet, 2 StatefulSet
+	kind     int // 0 Deployment, 1 CloneSet, 2 StatefulSet, 3 Advanced StatefulSet (same kind, other group)
 }
 
 var vEvRefs = []v1beta1.ObjectRef{
 	{APIVersion: "apps/v1", Kind: "Deployment"},
 	{APIVersion: "apps.kruise.io/v1alpha1", Kind: "CloneSet"},
 	{APIVersion: "apps/v1", Kind: "StatefulSet"},
+	{APIVersion: "apps.kruise.io/v1beta1", Kind: "StatefulSet"},
 }
 
 func vEvPick(tag string) vEvRef {
-	return vEvRef{ns: []string{"ns", "ns2"}[verifrt.IntRange(tag+".ns", 0, 1)], name: []string{"orders", "orders-v2"}[verifrt.IntRange(tag+".name", 0, 1)], kind: verifrt.IntRange(tag+".kind", 0, 2)}
+	return vEvRef{ns: []string{"ns", "ns2"}[verifrt.IntRange(tag+".ns", 0, 1)], name: []string{"orders", "orders-v2"}[verifrt.IntRange(tag+".name", 0, 1)], kind: verifrt.IntRange(tag+".kind", 0, 3)}
 }
 
 func vEvRollout(name string, ref vEvRef) v1beta1.Rollout {
@@ -87,7 +89,7 @@ func VerifC07_WorkloadEventWakesItsRollout() {
 		}
 		return nil
 	}
-	w := vEvRef{ns: "ns", name: "orders", kind: verifrt.IntRange("w.kind", 0, 2)}
+	w := vEvRef{ns: "ns", name: "orders", kind: verifrt.IntRange("w.kind", 0, 3)}
 	meta := metav1.ObjectMeta{Namespace: w.ns, Name: w.name, ResourceVersion: "2"}
 	var obj client.Object
 	switch w.kind {
@@ -95,14 +97,17 @@ func VerifC07_WorkloadEventWakesItsRollout() {
 		obj = &apps.Deployment{ObjectMeta: meta}
 	case 1:
 		obj = &kruiseappsv1alpha1.CloneSet{ObjectMeta: meta}
-	default:
+	case 2:
 		obj = &apps.StatefulSet{ObjectMeta: meta}
+	default:
+		obj = &kruiseappsv1beta1.StatefulSet{ObjectMeta: meta}
 	}
 	scheme := &runtime.Scheme{}
 	if !verifrt.Symbolic() {
 		scheme = runtime.NewScheme()
 		_ = clientgoscheme.AddToScheme(scheme)
 		_ = kruiseappsv1alpha1.AddToScheme(scheme)
+		_ = kruiseappsv1beta1.AddToScheme(scheme)
 	}
 	h := &enqueueRequestForWorkload{reader: cli, scheme: scheme}
 	q := &vEvQueue{}
